@@ -50,7 +50,7 @@ def scenarios(c):
     scheduling point), page-boundary and ring-wrap cases; plus seeded random schedules."""
     rng = c.rng
     q = c.tier == "quick"
-    lim = 3000 if q else 40000
+    lim = 1200 if q else 40000
     S = []
     # --- UnboundedSingleQueue
     for n in range(0, 7):
@@ -170,7 +170,7 @@ def oracle(c, line, out):
     elif kind == "pcq":
         prod, cons, cap = ints(d.get("prod", "")), ints(d.get("cons", "")), int(d["cap"])
         balanced = sum(prod) == sum(cons)
-        allitems = sorted(p * 1000 + i + 1 for p, k in enumerate(prod) for i in range(k))
+        allitems = sorted(p * 1000000 + i + 1 for p, k in enumerate(prod) for i in range(k))
     else:
         writes = ints(d.get("writes", ""))
         balanced = True
@@ -217,13 +217,13 @@ def oracle(c, line, out):
                     viol("pcq-exactly-once: duplicates or foreign values %s" % flat[:30], x)
             for g in gots:
                 for p in range(len(prod)):
-                    sub = [v for v in g if v // 1000 == p]
+                    sub = [v for v in g if v // 1000000 == p]
                     if sub != sorted(sub):
                         viol("pcq-order: a consumer received producer %d's items out of order: %s" % (p, g[:30]), x)
             if len(cons) == 1 and balanced:
                 for p, k in enumerate(prod):
-                    sub = [v for v in gots[0] if v // 1000 == p]
-                    if sub != [p * 1000 + i + 1 for i in range(k)]:
+                    sub = [v for v in gots[0] if v // 1000000 == p]
+                    if sub != [p * 1000000 + i + 1 for i in range(k)]:
                         viol("pcq-order: producer %d's items arrived as %s" % (p, sub[:30]), x)
         else:
             f = kv(res)
